@@ -1,6 +1,28 @@
 (* RunnerProofs.v -- proofs of the C20 statements about the two-thread LTS of theories/Runner.v.
    Every theorem quantifies over ALL schedules (lists of thread ids) and all client scripts; the proofs
-   are inductions over the schedule with invariants indexed by the runner's program counter. *)
+   are inductions over the schedule with invariants indexed by the runner's program counter.
+
+   Proved (all closed under the global context, see the Print Assumptions at the end):
+     C20_report          handed ++ in-flight = executed (order, each once); <= 1 per cycle without execute_all
+     C20_hooks           before_run / after_run at most once, first / last; exactly once if the thread ends
+     C20_pause           after the return of pause(): at most one cycle begins before the flag is set again
+     C20_stop            once _stop is set: at most mu further runner actions (mu <= 10 without execute_all,
+                         <= 13 + 3 * phi with it)           (C20_stop_bound: same, from any consistent state)
+     C20_stop_returns    inside stop(), both flags set: mu runner turns then one client turn => stop() returns
+     C20_stop_quiet      after the return of stop() the runner thread never acts again
+     C20_final           final read as true by the loop test => only _stop.set(), after_run follow
+     C20_final_meaning / C20_final_test   what `final` is in terms of the executed macro steps
+     C20_events          zero-delay events, one client (with or without the atomic switch): FIFO, at most
+                         once, nothing lost, processed = consumed, consumable as soon as queued
+     C20_events_refuted, C20_events_refuted_pop   delayed events, code as it is: concrete schedules (vm_compute)
+   Each comes with an Example (C20_*_ex) instantiating its hypotheses on a concrete interleaved run.
+
+   NOT proved here (missing, not needed for the fixed property text but natural next steps):
+     - C20_events for delayed events under the atomic switch (cf_atomic = true): needs sortedness of the queue
+       and correctness of the binary search on sorted lists; only the witness C20_events_witness_atomic_ok;
+     - more than one client thread (tid has TCli n, but the state holds one client);
+     - "exactly once if the runner keeps running" is stated as: nothing inserted is ever skipped
+       (C20_events, 4th conjunct) + bounded work per cycle; no temporal-logic liveness statement. *)
 From Coq Require Import List ZArith Bool Arith Lia.
 From Sismic Require Import Runner.
 Import ListNotations.
@@ -1669,7 +1691,20 @@ Example C20_events_ex :
   = [mk_ev 1 false 0; mk_ev 2 false 0; mk_ev 3 false 0].
 Proof. split; [repeat constructor|vm_compute; reflexivity]. Qed.
 
+(* C20_stop, for reachable states: at any point of any run at which _stop is set (by stop() or by the runner
+   itself), under EVERY continuation the runner thread performs at most mu further actions of its own. *)
+Theorem C20_stop : forall cf sched1 s tr sched2 s' l,
+  run_schedule cf sched1 = (s, tr) -> s_stop s = true -> run_from cf s sched2 = (s', l) ->
+  (length (ractions l) <= mu cf s)%nat /\ (mu cf s <= 13 + 3 * phi cf s)%nat /\
+  (cf_all cf = false -> (mu cf s <= 10)%nat).
+Proof.
+  intros cf sched1 s tr sched2 s' l H U H2.
+  pose proof (C20_stop_bound cf sched2 s s' l (base_reach _ _ _ _ H) U H2) as B.
+  pose proof (mu_le cf s). split; [lia|]. split; [lia|]. apply mu_le_noall.
+Qed.
+
 Print Assumptions C20_report.
+Print Assumptions C20_stop.
 Print Assumptions C20_hooks.
 Print Assumptions C20_pause.
 Print Assumptions C20_final.
